@@ -7,6 +7,12 @@ SJ_VERIFY_LOOP = {"secp256k1_surjectionproof_verify": {"for (i = 0; i < n_used_p
     "assigns": "i, __CPROVER_object_whole(borromean_s)",
     "invariants": "i <= n_used_pubkeys && (verif_sj_bad ==> i <= verif_sj_gi) && (verif_sj_gi < i ==> (borromean_s[verif_sj_gi].d[0] == verif_sj_sx.d[0] && borromean_s[verif_sj_gi].d[1] == verif_sj_sx.d[1] && borromean_s[verif_sj_gi].d[2] == verif_sj_sx.d[2] && borromean_s[verif_sj_gi].d[3] == verif_sj_sx.d[3]))",
     "decreases": "n_used_pubkeys - i"}}}
+def pk_loop(ring):
+    return {"secp256k1_surjection_compute_public_keys": {"for (i = 0; i < n_input_tags; i++)": {
+        "assigns": "i, j, __CPROVER_object_whole(pubkeys), " + ("*ring_input_index, " if ring else "") + "g_aj_n, g_aj_roff, g_aj_a, g_aj_b, g_aj_seen",
+        "invariants": "i <= n_input_tags && j == verif_sj_rank[i] && g_aj_n == j && j <= n_pubkeys && (g_el_i < j ==> g_aj_seen == 1) && (g_el_i >= j ==> g_aj_seen == 0)"
+            + (" && ((input_index < i && ((used_tags[input_index / 8] >> (input_index % 8)) & 1)) ==> *ring_input_index == verif_sj_rank[input_index])" if ring else ""),
+        "decreases": "n_input_tags - i"}}}
 UNITS = [
     U("C11.parse", ["C11", "C07"], "harness/C11/parse.c", "h_sjp_parse", replace=["memcpy", CB],
       functions=["secp256k1_surjectionproof_parse"], timeout=900, min_obl=20, unwind=34,
@@ -25,6 +31,15 @@ UNITS = [
     U("C11.roundtrip", ["C11"], "harness/C11/serialize.c", "h_sjp_roundtrip", replace=["memcpy", CB], defs=["EL_MEMCPY_EXACT32"], tier="thorough",
       functions=["secp256k1_surjectionproof_parse", "secp256k1_surjectionproof_serialize"], timeout=5400, min_obl=20, unwind=34,
       note="serialize(parse(b)) == b for every accepted b of length <= 9000 (1070 s measured)"),
+    U("C11.compute_pubkeys_noring", ["C11", "C07"], "harness/C11/pubkeys.c", "h_sjp_pubkeys", replace=["secp256k1_gej_add_ge_var"], assumed=["secp256k1_gej_add_ge_var"],
+      loop_contracts=pk_loop(False), functions=["secp256k1_surjection_compute_public_keys", "secp256k1_generator_load", "secp256k1_ge_neg", "secp256k1_gej_set_ge"],
+      timeout=1800, min_obl=30, unwind=258, closed_by="loop contract over the n tags (engine-supplied, no /repo edit)",
+      note="the verifier's call: ring_input_index = NULL"),
+    U("C11.compute_pubkeys", ["C11", "C07"], "harness/C11/pubkeys.c", "h_sjp_pubkeys", replace=["secp256k1_gej_add_ge_var"], assumed=["secp256k1_gej_add_ge_var"], defs=["PK_RING"],
+      loop_contracts=pk_loop(True), functions=["secp256k1_surjection_compute_public_keys", "secp256k1_generator_load", "secp256k1_ge_neg", "secp256k1_gej_set_ge"],
+      timeout=1800, min_obl=30, unwind=258,
+      closed_by="loop contract over the n tags (engine-supplied, no /repo edit): ring position = prefix bit count (harness table), decreases clause; harness table loops unwound",
+      note="every n <= 256, every padding-free bitmap; pubkeys is an exact-size heap object so any write beyond n_used is a bounds violation"),
     U("C11.verify_gate_b8", ["C11", "C07"], VER, "h_sjp_verify", replace=VER_REPL, assumed=["secp256k1_borromean_verify"], defs=["EL_BOUND=8"],
       functions=VER_FUNCS, timeout=900, min_obl=30, unwind=34, bounded="n_inputs<=8",
       note="scalar loop unwound for proofs over at most 8 inputs: concrete counterexample (ring position, bytes) when a gate is broken"),
